@@ -51,6 +51,9 @@ type c15Run struct {
 	Interim int  `json:"interim_reports"`
 	CrashAt int  `json:"killed_before_fs_operation"`            // 0 = run completes
 	FailAt  int  `json:"write_error_at_fs_operation,omitempty"` // that write stores half of its data and fails (disk full)
+	// Spell: another text of a query with the same result: 1 = a trailing clause " limit 1000" (the base text is a
+	// strict prefix of it), 2 = " limit 2000" (same length as 1, different text)
+	Spell int `json:"query_spelling,omitempty"`
 }
 
 const c15Large = 600
@@ -74,6 +77,12 @@ func c15Query(path string, r c15Run) string {
 			q += "append "
 		}
 		q += path
+	}
+	switch r.Spell {
+	case 1:
+		q += " limit 1000"
+	case 2:
+		q += " limit 2000"
 	}
 	return q
 }
@@ -203,6 +212,11 @@ func c15Check(c *Ctx, maxRuns int) {
 		for _, rows := range []int{1, 2, 0, 3} {
 			for _, in := range []int{0, 1} {
 				variants = append(variants, c15Run{Append: app, Rows: rows, Interim: in})
+				if rows == 1 {
+					// the same query in two other spellings: repeated runs against one outfile differ in the query text
+					// only (longer, shorter, same length)
+					variants = append(variants, c15Run{Append: app, Rows: rows, Interim: in, Spell: 1}, c15Run{Append: app, Rows: rows, Interim: in, Spell: 2})
+				}
 			}
 		}
 	}
@@ -354,6 +368,9 @@ func c15Hist(h []c15Run) string {
 			m = "append"
 		}
 		s := fmt.Sprintf("[%s rows=%d interim=%d", m, r.Rows, r.Interim)
+		if r.Spell > 0 {
+			s += fmt.Sprintf(" query-text-variant=%d", r.Spell)
+		}
 		if r.CrashAt > 0 {
 			s += fmt.Sprintf(" KILLED before fs-op %d", r.CrashAt)
 		}
@@ -371,6 +388,9 @@ func c15Oracle(before, after fsState, run c15Run, killed bool, legit, queries ma
 	// .query is never partial
 	if after.Query != absent && !queries[after.Query] {
 		return fmt.Sprintf(".query holds %q which is not the complete text of any query run so far", after.Query)
+	}
+	if !killed && after.Query != c15Query(path, run) {
+		return fmt.Sprintf("after a completed run .query holds %q, not the text of the query that was run: %q", show(after.Query), c15Query(path, run))
 	}
 	if !run.Append {
 		switch {
@@ -561,13 +581,14 @@ func init() {
 	Register(&Check{
 		ID:    "C15",
 		Level: "fault_enumeration",
-		Rule: "explicit-state search over file-system states (content of outfile, outfile.tmp, .query, .query.tmp): from {nothing, a complete outfile of an earlier query} every run variant (replace/append x 4 result sets (empty, 1 row, 2 rows, and - as the first run of a history - 600 rows = larger than any 4 KiB buffer) x 0/1 interim report + final report, " +
+		Rule: "explicit-state search over file-system states (content of outfile, outfile.tmp, .query, .query.tmp): from {nothing, a complete outfile of an earlier query} every run variant (replace/append x 4 result sets (empty, 1 row, 2 rows, and - as the first run of a history - 600 rows = larger than any 4 KiB buffer) x 0/1 interim report + final report; the 1-row query also in two other spellings of the same query - a longer text of which the base text is a strict prefix, and one of the same length - so that repeated runs against one outfile differ in nothing but the query text, " +
 			"the call pattern of MaprClient.reportResults in cumulative mode) is executed on the real GlobalGroupSet.WriteResult over a recording file system, once to completion, once killed before EVERY mutating file-system operation and once with a write error (half of the data stored, then 'no space left on device') at every write " +
-			"(the file system is frozen, deferred clean-up has no effect); resulting states are de-duplicated and expanded to histories of 2 (quick) / 3 (thorough) runs; the invariant is evaluated on every state; plus: an interim and a final report of one client requested at the same moment (replace and append mode), all schedules within 2 (quick) / 3 (thorough) deviations with file-system operations as scheduling points, invariant: the outfile is never observable half-written and ends complete; non-trivial = a history containing a kill",
+			"(the file system is frozen, deferred clean-up has no effect); resulting states are de-duplicated and expanded to histories of 2 (quick) / 3 (thorough) runs; the invariant is evaluated on every state (incl.: after every completed run, in both modes, .query holds exactly the text of the query that ran); plus: an interim and a final report of one client requested at the same moment (replace and append mode), all schedules within 2 (quick) / 3 (thorough) deviations with file-system operations as scheduling points, invariant: the outfile is never observable half-written and ends complete; non-trivial = a history containing a kill",
 		Assumptions: []string{
 			"one WriteString/Rename/OpenFile = one system call; a kill inside a single write(2) and power-loss reordering are not modelled",
 			"canonical schedule (WriteResult is sequential under the group set's semaphore)",
 		},
+		QuickBudget: 240 * time.Second,
 		Run: func(c *Ctx) {
 			res := vrt.Run(vrt.Config{MaxSteps: 1 << 50, Horizon: 1 << 60}, func() {
 				args := DefaultArgs()
